@@ -353,6 +353,7 @@ func (ssl *SSLAuthenticator) confirmHandshakeCompletion(ctx context.Context, neg
 	} else {
 		// Server: send server status first, then receive client status
 		slog.Info("🔐 SSL: Server sending holding status...", "destination", "cedar")
+		ssl.serverStatus = AuthSSLHolding
 		statusMsg := message.NewMessageForStream(ssl.authenticator.stream)
 		if err := statusMsg.PutInt(ctx, ssl.serverStatus); err != nil {
 			return fmt.Errorf("failed to send server status: %w", err)
